@@ -19,6 +19,7 @@ package props
 
 import (
 	"fmt"
+	"sort"
 	"strings"
 
 	"seehuhn.de/go/postscript"
@@ -226,6 +227,48 @@ func runC11(r *rt.Runner) {
 		})
 	}
 
+	// ---- (2b) no operator can make the budget error disappear: for every name
+	// in systemdict (found at run time, so operators added later are included)
+	// a procedure that never ends is handed to the operator in every operand
+	// position pattern. If the endless loop is entered, the run has to end with
+	// the budget error and the counter at N+1, whatever the operator does with
+	// errors of its procedure.
+	{
+		probe := postscript.NewInterpreter()
+		var opNames []string
+		for k := range probe.SystemDict {
+			opNames = append(opNames, string(k))
+		}
+		sortStrings(opNames)
+		pre := []string{"", "true", "false true", "3", "0 1 5", "[ 1 2 ]", "(ab)", "<< /k 1 >>", "{ } ", "true { }", "mark"}
+		for _, op := range opNames {
+			op := op
+			r.Case("budget-vs-operator/"+op, func(c *rt.C) {
+				const N = 700
+				for _, p := range pre {
+					for _, tail := range []string{"", " 1 2 add", " pop 7"} {
+						text := p + " { { 1 pop } loop } " + op + tail
+						intp, err, tr := runTraced(text, N, false)
+						c.Eval()
+						c.Count("operator x endless procedure runs")
+						if intp.NumOps > N+1 || tr.maxOver > 1 {
+							c.Violation("budget-vs-operator|"+op+"|overshoot", fmt.Sprintf("budget %d: the counter reached %d\nprogram: %s", N, max(intp.NumOps, N+tr.maxOver), text), "")
+							return
+						}
+						if intp.NumOps > N && err != postscript.ErrExecutionLimitExceeded {
+							c.Violation("budget-vs-operator|"+op+"|swallowed", fmt.Sprintf("budget %d was used up (counter %d) but Execute returned %v instead of ErrExecutionLimitExceeded\nprogram: %s", N, intp.NumOps, err, text), "")
+							return
+						}
+						if intp.NumOps > N {
+							c.Count("operator x endless procedure runs ended by the budget")
+						}
+					}
+				}
+				c.Nontrivial([]byte("bvo|"+op), func() string { return "{ { 1 pop } loop } " + op })
+			})
+		}
+	}
+
 	// ---- (3) start check, all two-byte prefixes
 	tail := " /zz 42 def 7 8 9\n"
 	for hi := 0; hi < 256; hi++ {
@@ -369,6 +412,11 @@ var c11Shapes = []struct {
 	{"begin-loop-inside-eexec", "currentfile eexec\n" + hexSection("{ 1 dict begin } loop "), []string{"dictstackoverflow"}},
 	{"push-loop-inside-eexec", "currentfile eexec\n" + hexSection("{ 1 } loop "), []string{"stackoverflow"}},
 	{"recursion-inside-eexec", "currentfile eexec\n" + hexSection("/p { p 1 } def p "), []string{"execstackoverflow"}},
+	// an encrypted section that leaves a body open, started from a looping operator:
+	// every later round only appends to the open body
+	{"eexec-open-body-in-repeat", "200000 { currentfile eexec } repeat\n" + hexSection("{ "), []string{"stackoverflow", "syntaxerror", "limitcheck", "invalidaccess"}},
+	{"eexec-open-body-in-for", "0 1 200000 { pop currentfile eexec } for\n" + hexSection("7 { 8 { "), []string{"stackoverflow", "syntaxerror", "limitcheck", "invalidaccess"}},
+	{"eexec-open-body-in-loop", "{ currentfile eexec } loop\n" + hexSection("[ { "), []string{"stackoverflow", "syntaxerror", "limitcheck", "invalidaccess"}},
 	// chains of executable names bound to each other: every step is an operation, so the budget ends them
 	{"budgeted-name-cycle", "/a { a } 0 get def a", []string{"(budget)", "execstackoverflow"}},
 	{"budgeted-name-cycle-2", "/a { b } 0 get def /b { a } 0 get def 1 a", []string{"(budget)", "execstackoverflow"}},
@@ -400,3 +448,5 @@ func hexSection(plain string) string {
 	c := ref.Encrypt(append([]byte{0, 0, 0, 0}, plain...), 55665, nil)
 	return fmt.Sprintf("%x", c)
 }
+
+func sortStrings(a []string) { sort.Strings(a) }
